@@ -1,14 +1,15 @@
-// Package crashrig is the R-crash rig of C13: crash consistency of the commit
-// sequence at every database write boundary, and pruning.
+// Package crashrig is the R-crash rig of C13: crash consistency of the real
+// finalizeCommit sequence at every database write boundary, in both storage
+// modes, and pruning with a retention window.
 package crashrig
 
 import (
 	"fmt"
 	"math/big"
-	"os"
-	"path/filepath"
 	"time"
 
+	"github.com/lianxiangcloud/linkchain/config"
+	cs "github.com/lianxiangcloud/linkchain/consensus"
 	"github.com/lianxiangcloud/linkchain/libs/common"
 	"github.com/lianxiangcloud/linkchain/libs/crypto"
 	"github.com/lianxiangcloud/linkchain/libs/log"
@@ -18,6 +19,7 @@ import (
 	"verif/sim/simnode"
 )
 
+// runConf is the swarm configuration of one run (head of the tape).
 type runConf struct {
 	Mode              string // crash | prune
 	IsTrie            bool
@@ -28,74 +30,195 @@ type runConf struct {
 	PartSize          int
 	TimeoutCommit     int
 	SkipTimeoutCommit bool
+	Keep              uint64 // prune: retention window K
+	KeepName          string // which member of {0,1,2,5,L-1,L,L+3}
+	PruneAt           []int  // prune: heights at which ClearHistoricalData's body runs
 }
 
 func init() {
 	log.Root().SetHandler(log.DiscardHandler())
 	kernel.Register(&kernel.Rig{
 		Property: "C13", Name: "R-crash", Level: "fault_enumeration",
-		Rule:      "TODO",
-		QuickRuns: 32, QuickBudget: 70 * time.Second, ThoroughRuns: 2000, ThoroughBudget: 18 * time.Minute,
-		RunsPerProcess: 8, RunTimeout: 300 * time.Second,
+		Rule: "crash runs (2 of 3): one seeded configuration (storage mode kv/trie, 3-4 blocks quick / 3-6 thorough, 0-3 account transfers per block, optional elections with VotePeriod 2-3 and 2-5 candidates so that the validator set changes, optional duplicate-vote evidence, part size, commit timeout) ; for EVERY block the number W of database write boundaries of the real consensus.finalizeCommit is measured and the commit is re-executed W+1 times from the pre-commit durable state, frozen after boundary k = 0..W (SaveBlock's three writer goroutines released in a tape-chosen order), and a fresh node is restarted over the frozen image + the WAL/validator/kvState.wal files as they were at that instant and driven to the next height. prune runs (1 of 3): chain of L <= 16 (quick) / 40 (thorough) blocks with elections, retention K from {0,1,2,5,L-1,L,L+3}, pruning called as node.ClearHistoricalData does at 1-2 tape-chosen heights, chain continued and node restarted afterwards. non-trivial = at least 30 crash points evaluated (crash) / at least one pruning call with a non-empty retained window evaluated (prune); distinct = hash of (mode, storage mode, elections, per-height W and tx counts, validator-set sizes / K, L, prune heights, validator-change heights)",
+		Real: []string{"consensus.ConsensusState incl. receiveRoutine, finalizeCommit, WAL catch-up replay (single validator)", "consensus WAL (real baseWAL on files)", "types.FilePV on a real file", "app.LinkApplication.CommitBlock", "state.StateDB commit in kv mode (real kvState.wal file) and trie mode", "blockchain.BlockStore.SaveBlock with its three writer goroutines", "libs/txmgr tx index", "utxo.UtxoStore.SaveUtxo", "mempool update", "consensus.BlockExecutor.ApplyBlock + SaveStatus", "evidence pool/store", "p2p.ConManager (socket-free through the ListenerBindFunc/DefaultNewTableFunc seams) for the election path", "BlockStore.DeleteHistoricalData", "ConsensusState.DeleteHistoricalData"},
+		Stub: []string{"node assembly: simnode.OpenChain mirrors node.NewNode (store opening order, LoadStatus, NewLinkApplication, 'status one block behind the store => ApplyBlock' rebuild, mempool, consensus construction); the real NewNode (key store, switch, RPC) is not run", "timeout ticker (simulator-controlled VerifTicker, same replace-if-later rule)", "storage engine (SimDB: process-crash model, a completed write survives, nothing later does)", "p2p switch (no peers)", "libxcrypto (pure-Go model)", "balance-record store closed (SaveBalanceRecord=false, the default)"},
+		Assumptions: []string{"Go 1.26.8 testing/synctest virtual clock", "process-crash model at database write boundaries; files (WAL, priv_validator.json, kvState.wal) are copied at the freeze instant; torn file writes and crash points between two file operations that are not separated by a DB write are not injected", "single validator holding > 2/3 of the power (elected candidates get power 1 and are absent)", "a second crash during recovery is not injected", "confidential (UTXO) transactions are generated only when verif/sim/txgen provides them"},
+		QuickRuns: 96, QuickBudget: 70 * time.Second, ThoroughRuns: 3000, ThoroughBudget: 18 * time.Minute,
+		RunsPerProcess: 6, RunTimeout: 400 * time.Second,
 		Run: run,
 	})
 }
 
-func run(c *kernel.Ctx) {
-	simnode.InitGlobals()
-	kernel.Bubble(c, false, func() { proto(c) })
-}
+func genesisTime() time.Time { return time.Unix(946684800, 0) }
 
 func seededKey(tag string, i int, seed uint64) crypto.PrivKeyEd25519 {
-	return crypto.GenPrivKeyEd25519FromSecret([]byte(fmt.Sprintf("verif-%s-%d-%d", tag, i, seed)))
+	return crypto.GenPrivKeyEd25519FromSecret([]byte(fmt.Sprintf("verif-c13-%s-%d-%d", tag, i, seed)))
 }
 
-func proto(c *kernel.Ctx) {
-	seed := c.Tape.Seed()
-	w := &world{c: c, sched: c.Tape.Fork("sched")}
-	w.conf = runConf{Mode: "crash", IsTrie: os.Getenv("P_TRIE") != "", Blocks: 3, PartSize: 256, TimeoutCommit: 10}
-	w.isTrie = w.conf.IsTrie
-	base := os.Getenv("VERIF_SCRATCH")
-	if base == "" {
-		base = os.TempDir()
+func drawConf(c *kernel.Ctx) runConf {
+	t := c.Tape.Fork("config")
+	thorough := c.Tier == kernel.Thorough
+	cf := runConf{}
+	if t.Pick(2, 1) == 0 {
+		cf.Mode = "crash"
+	} else {
+		cf.Mode = "prune"
 	}
-	w.scratch = filepath.Join(base, fmt.Sprintf("run-%d", seed))
-	os.RemoveAll(w.scratch)
-	os.MkdirAll(w.scratch, 0755)
-	defer os.RemoveAll(w.scratch)
+	cf.IsTrie = t.Bool(1, 2)
+	cf.Elections = t.Bool(1, 2)
+	cf.VotePeriod = uint64(t.Range(2, 3))
+	cf.NCand = t.Range(2, 5)
+	cf.PartSize = []int{64, 256, 65536}[t.Int(3)]
+	cf.TimeoutCommit = []int{10, 200}[t.Int(2)]
+	// SkipTimeoutCommit stays off: with a single validator "all precommits of the
+	// last height are in" holds at once and the node would free-run through
+	// heights inside one event
+	cf.SkipTimeoutCommit = false
+	if cf.Mode == "crash" {
+		cf.Blocks = t.Range(3, 4)
+		if thorough {
+			cf.Blocks = t.Range(3, 6)
+		}
+		return cf
+	}
+	// prune
+	cf.Elections = t.Bool(3, 4)
+	cf.VotePeriod = uint64([]int{2, 3, 5}[t.Int(3)])
+	maxL := 16
+	if thorough {
+		maxL = 40
+	}
+	L := t.Range(5, maxL)
+	cf.Blocks = L
+	names := []string{"0", "1", "2", "5", "L-1", "L", "L+3"}
+	vals := []int{0, 1, 2, 5, L - 1, L, L + 3}
+	i := t.Pick(1, 3, 3, 3, 3, 3, 3)
+	cf.Keep, cf.KeepName = uint64(vals[i]), names[i]
+	if t.Bool(1, 2) {
+		cf.PruneAt = append(cf.PruneAt, t.Range(1, L-1))
+	}
+	cf.PruneAt = append(cf.PruneAt, L)
+	return cf
+}
+
+func run(c *kernel.Ctx) {
+	simnode.InitGlobals()
+	conf := drawConf(c)
+	dir, err := runDir("c13", c.Tape.Seed())
+	if err != nil {
+		c.HarnessTrouble("scratch: %v", err)
+		return
+	}
+	defer dropRunDir(dir)
+	kernel.Bubble(c, false, func() {
+		w := &world{c: c, sched: c.Tape.Fork("sched"), conf: conf, isTrie: conf.IsTrie, scratch: dir}
+		g, err := w.genesis()
+		if err != nil {
+			c.HarnessTrouble("genesis: %v", err)
+			return
+		}
+		switch conf.Mode {
+		case "crash":
+			r := newCrashRun(w, g)
+			r.run()
+			c.Sample(map[string]interface{}{"config": conf, "crash_points": r.points, "heights": r.sample})
+		case "prune":
+			p := newPruneRun(w, g)
+			p.run()
+			c.Sample(map[string]interface{}{"config": conf, "trace": p.trace})
+		}
+	})
+}
+
+// genesis installs the genesis of the run and returns its durable state.
+func (w *world) genesis() (*durable, error) {
+	seed := w.c.Tape.Seed()
+	conf := w.conf
 	var cb common.Address
-	copy(cb[:], crypto.Keccak256([]byte("coinbase-0"))[:20])
-	w.key = simnode.ValKey{Priv: seededKey("val", 0, seed), Power: 10, CoinBase: cb}
-	gen := &simnode.GenesisSpec{ChainID: "verif-chain", IsTrie: w.isTrie, PartSize: 256, Vals: []simnode.ValKey{w.key}}
-	for i := 0; i < 4; i++ {
+	copy(cb[:], crypto.Keccak256([]byte("c13-coinbase-0"))[:20])
+	w.key = simnode.ValKey{Priv: seededKey("val", 0, seed), Power: 100, CoinBase: cb}
+	gen := &simnode.GenesisSpec{ChainID: "verif-c13", IsTrie: conf.IsTrie, PartSize: conf.PartSize, Vals: []simnode.ValKey{w.key}}
+	for i := 0; i < nUsers; i++ {
 		gen.Alloc = append(gen.Alloc, simnode.Alloc{Addr: userAddr(i), Balance: new(big.Int).Mul(big.NewInt(1e18), big.NewInt(1000000))})
 	}
-	w.gen = gen
-	d0dir := w.newDir("genesis")
-	disk := simdb.NewDisk(dataDir(d0dir))
-	if err := gen.Install(disk); err != nil {
-		c.HarnessTrouble("genesis: %v", err)
-		return
-	}
-	d0 := &durable{img: disk.Snapshot(), dir: d0dir}
-	n, err := w.open(d0, "main")
-	if err != nil {
-		c.HarnessTrouble("open: %v", err)
-		return
-	}
-	n.settle()
-	n.disk.KeepLog(true)
-	n.gateOn = true
-	for h := uint64(1); h <= 3; h++ {
-		tx, _ := userKey(0).transfer(h-1, userAddr(1), big.NewInt(1000))
-		n.chain.RegisterRate()
-		fmt.Println("addtx", n.chain.Mempool.AddTx("", tx))
-		b := n.disk.Seq()
-		ok := n.driveTo(h, 50)
-		fmt.Println("height", h, ok, "store", n.storeHeight(), "cons", n.consHeight(), "failed", n.failed, n.failMsg)
-		for _, r := range n.disk.Log()[b:] {
-			fmt.Printf("  %d %s %s keys=%d\n", r.Seq, r.DB, r.Op, r.Keys)
+	if conf.Elections {
+		gen.VotePeriod = conf.VotePeriod
+		for i := 0; i < conf.NCand; i++ {
+			var ccb common.Address
+			copy(ccb[:], crypto.Keccak256([]byte(fmt.Sprintf("c13-cand-coinbase-%d", i)))[:20])
+			// no Deposit record: GetCandidatesDeposit then reports 0 for every
+			// candidate (simnode's deposit layout starts with a zero byte, which
+			// contract storage trims)
+			gen.Candidates = append(gen.Candidates, simnode.CandidateSpec{
+				Key:   simnode.ValKey{Priv: seededKey("cand", i, seed), Power: 1, CoinBase: ccb},
+				Score: int64(5 + 3*i),
+			})
 		}
 	}
-	n.stop()
+	w.gen = gen
+	d0 := w.newDir("genesis")
+	disk := simdb.NewDisk(dataDir(d0))
+	if err := gen.Install(disk); err != nil {
+		return nil, err
+	}
+	return &durable{img: disk.Snapshot(), dir: d0}, nil
+}
+
+func (w *world) trackedAccounts() []common.Address {
+	m := map[common.Address]bool{config.ContractFoundationAddr: true, w.key.CoinBase: true}
+	for i := 0; i < nUsers; i++ {
+		m[userAddr(i)] = true
+	}
+	for _, cd := range w.gen.Candidates {
+		m[cd.Key.CoinBase] = true
+	}
+	return sortedAddrs(m)
+}
+
+// planWorkload draws the transfers of heights 1..L.
+func (w *world) planWorkload(L int, maxPerBlock int) map[uint64][]*plannedTx {
+	t := w.c.Tape.Fork("workload")
+	plan := map[uint64][]*plannedTx{}
+	nonces := make([]uint64, nUsers)
+	for h := 1; h <= L; h++ {
+		n := t.Range(0, maxPerBlock)
+		for k := 0; k < n; k++ {
+			from := t.Int(nUsers)
+			to := (from + 1 + t.Int(nUsers-1)) % nUsers
+			amt := big.NewInt(int64(1 + t.Int(1000000)))
+			tx, err := userKey(from).transfer(nonces[from], userAddr(to), amt)
+			if err != nil {
+				continue
+			}
+			nonces[from]++
+			plan[uint64(h)] = append(plan[uint64(h)], &plannedTx{from: from, to: to, amount: amt, tx: tx, hash: tx.Hash()})
+		}
+	}
+	return plan
+}
+
+func newCrashRun(w *world, g *durable) *crashRun {
+	r := &crashRun{w: w, c: w.c, ref: map[uint64]*heightRef{}, snaps: map[uint64]*durable{0: g}, evAt: map[uint64]bool{}}
+	r.tracked = w.trackedAccounts()
+	r.plan = w.planWorkload(w.conf.Blocks, 3)
+	t := w.c.Tape.Fork("workload-evidence")
+	for h := 2; h <= w.conf.Blocks; h++ {
+		if t.Bool(1, 3) {
+			r.evAt[uint64(h)] = true
+		}
+	}
+	// genesis reference
+	gd := simdb.NewDiskFromImage(g.img, "")
+	st, _, err := durableState(gd, w.isTrie, 0)
+	if err == nil {
+		ref := &heightRef{}
+		ref.bal, ref.nonce = r.readLedger(st)
+		if s0, err := cs.LoadStatus(gd.DB(simnode.DBStatus)); err == nil {
+			ref.status = s0.Bytes()
+		}
+		r.ref[0] = ref
+	} else {
+		w.c.HarnessTrouble("genesis state: %v", err)
+	}
+	return r
 }
